@@ -582,3 +582,15 @@ _PR_SWALLOW = '        if self.data_type is None:\n            self.value = self
 T("C14", "parse-reply-restructured", PC, _PR_OLD, _PR_TWIN, more=[(PC, _PR_OLD, _PR_TWIN)])
 M("C14", "parse-reply-decodes-refused", PC, _PR_OLD, _PR_BAD, ["D14.4"], more=[(PC, _PR_OLD, _PR_BAD)])
 M("C14", "parse-reply-error-swallowed", PC, _PR_OLD, _PR_SWALLOW, ["D14.4"])
+
+# D8.7 names read in handlers
+M("C08", "stringn-handler-unbound", DT, 'f"Error encoding {value!r} as STRINGN using char. size {char_size}"', 'f"Error encoding {value!r} as STRINGN using {encoding} ({char_size}-byte characters)"', ["D8.7"])
+
+# D19.7 from_reply folded per reply code; D6.8 identity around the struct codec; D1.3 (= D4.5 under C01)
+SV_ = "pycomm3/cip/services.py"
+M("C19", "from-reply-connmgr-first", SV_, "        val = cls.get(USINT.encode(USINT.decode(reply_service) - 128))", "        code = USINT.encode(USINT.decode(reply_service) - 128)\n        val = ConnectionManagerServices.get(code, cls.get(code))", ["D19.7"])
+M("C19", "from-reply-mask-7f", SV_, "        val = cls.get(USINT.encode(USINT.decode(reply_service) - 128))", "        val = cls.get(USINT.encode(USINT.decode(reply_service) & 0x3F))", ["D19.7"])
+T("C19", "from-reply-and-7f", SV_, "        val = cls.get(USINT.encode(USINT.decode(reply_service) - 128))", "        val = cls.get(USINT.encode(USINT.decode(reply_service) & 0x7F))")
+M("C06", "real-decode-rounded", DT, 'class REAL(ElementaryDataType):', 'class REAL(ElementaryDataType):\n    @classmethod\n    def _decode(cls, stream):\n        value = super()._decode(stream)\n        return float(f"{value:.7g}")\n', ["D6.8"])
+T("C06", "real-decode-passthrough", DT, 'class REAL(ElementaryDataType):', 'class REAL(ElementaryDataType):\n    @classmethod\n    def _decode(cls, stream):\n        value = super()._decode(stream)\n        return value\n')
+M("C01", "fragment-offset-data-minus-2", LX, "                    offset += len(response.value_bytes)", "                    offset += len(response.data) - 2", ["D1.3"])
